@@ -179,6 +179,16 @@ class Audit:
                 self.events.append((rec[0],) + tuple(paths))
         return False
 
+    def raw_events_with_flags(self):
+        """(event, absolute path, flags) of open events on paths under root."""
+        out = []
+        for rec in self.raw:
+            if rec[0] in ("open-w", "open-create") and isinstance(rec[1], str):
+                p = os.path.normpath(os.path.join(self.cwd, rec[1]))
+                if self.root is None or self._under(p):
+                    out.append((rec[0], p, rec[2]))
+        return out
+
     def _under(self, p):
         rp = os.path.realpath(os.path.dirname(p))
         rp = os.path.join(rp, os.path.basename(p))
